@@ -61,4 +61,56 @@ rows1 = ('<row r="1"><c r="A1" t="s"><v>0</v></c><c r="B1" t="s"><v>1</v></c><c 
 rows2 = '<row r="1"><c r="A1" t="s"><v>3</v></c><c r="B1" t="s"><v>0</v></c></row><row r="4"><c r="C4"><f>SUM(Sheet1!E1:E1)</f><v>12.5</v></c></row>'
 rows3 = '<row r="2"><c r="B2" t="s"><v>2</v></c><c r="C2" t="s"><v>1</v></c></row>'
 write('fx_foreign1.xlsx', ['Sheet1', 'Second', 'Third'], [sheet(cols, rows1), sheet('', rows2), sheet('', rows3)], strings)
-print('written', [f for f in os.listdir('.') if f.endswith('.xlsx')])
+
+# fx_many_comments: twelve sheets, each with one comment of its own (comments1..12.xml, vmlDrawing1..12.vml): the
+# part numbers of one family reach two digits
+VML = """<xml xmlns:v="urn:schemas-microsoft-com:vml"
+ xmlns:o="urn:schemas-microsoft-com:office:office"
+ xmlns:x="urn:schemas-microsoft-com:office:excel">
+ <o:shapelayout v:ext="edit">
+  <o:idmap v:ext="edit" data="%d"/>
+ </o:shapelayout><v:shapetype id="_x0000_t202" coordsize="21600,21600" o:spt="202"
+  path="m,l,21600r21600,l21600,xe">
+  <v:stroke joinstyle="miter"/>
+  <v:path gradientshapeok="t" o:connecttype="rect"/>
+ </v:shapetype><v:shape id="_x0000_s%d" type="#_x0000_t202" style='position:absolute;
+  margin-left:228pt;margin-top:43.5pt;width:96pt;height:59.25pt;z-index:1;
+  visibility:hidden' fillcolor="#ffffe1" o:insetmode="auto">
+  <v:fill color2="#ffffe1"/>
+  <v:shadow on="t" color="black" obscured="t"/>
+  <v:path o:connecttype="none"/>
+  <v:textbox style='mso-direction-alt:auto'>
+   <div style='text-align:left'></div>
+  </v:textbox>
+  <x:ClientData ObjectType="Note">
+   <x:MoveWithCells/>
+   <x:SizeWithCells/>
+   <x:Anchor>
+    2, 15, 1, 10, 4, 15, 4, 4</x:Anchor>
+   <x:AutoFill>False</x:AutoFill>
+   <x:Row>1</x:Row>
+   <x:Column>1</x:Column>
+  </x:ClientData>
+ </v:shape></xml>"""
+def many_comments(name, n):
+    names = ['N%d' % (i + 1) for i in range(n)]
+    wb, wbrels = workbook(names)
+    ov = ''.join('<Override PartName="/xl/worksheets/sheet%d.xml" ContentType="application/vnd.openxmlformats-officedocument.spreadsheetml.worksheet+xml"/><Override PartName="/xl/comments%d.xml" ContentType="application/vnd.openxmlformats-officedocument.spreadsheetml.comments+xml"/>' % (i + 1, i + 1) for i in range(n))
+    ct = (CT % ov).replace('<Default Extension="xml"', '<Default Extension="vml" ContentType="application/vnd.openxmlformats-officedocument.vmlDrawing"/><Default Extension="xml"')
+    with zipfile.ZipFile(name, 'w', zipfile.ZIP_DEFLATED) as z:
+        z.writestr('[Content_Types].xml', ct)
+        z.writestr('_rels/.rels', RELS)
+        z.writestr('xl/workbook.xml', wb)
+        z.writestr('xl/_rels/workbook.xml.rels', wbrels)
+        z.writestr('xl/styles.xml', STYLES)
+        z.writestr('xl/theme/theme1.xml', theme())
+        z.writestr('xl/sharedStrings.xml', sst(['<si><t>sheet text %d</t></si>' % (i + 1) for i in range(n)]))
+        for i in range(n):
+            k = i + 1
+            body = '<sheetData><row r="1"><c r="A1" t="s"><v>%d</v></c></row></sheetData><legacyDrawing r:id="rId1"/>' % i
+            z.writestr('xl/worksheets/sheet%d.xml' % k, '<?xml version="1.0" encoding="UTF-8" standalone="yes"?>\n<worksheet xmlns="http://schemas.openxmlformats.org/spreadsheetml/2006/main" xmlns:r="http://schemas.openxmlformats.org/officeDocument/2006/relationships">%s</worksheet>' % body)
+            z.writestr('xl/worksheets/_rels/sheet%d.xml.rels' % k, '<?xml version="1.0" encoding="UTF-8" standalone="yes"?>\n<Relationships xmlns="http://schemas.openxmlformats.org/package/2006/relationships"><Relationship Id="rId1" Type="http://schemas.openxmlformats.org/officeDocument/2006/relationships/vmlDrawing" Target="../drawings/vmlDrawing%d.vml"/><Relationship Id="rId2" Type="http://schemas.openxmlformats.org/officeDocument/2006/relationships/comments" Target="../comments%d.xml"/></Relationships>' % (k, k))
+            z.writestr('xl/comments%d.xml' % k, '<?xml version="1.0" encoding="UTF-8" standalone="yes"?>\n<comments xmlns="http://schemas.openxmlformats.org/spreadsheetml/2006/main"><authors><author>author %d</author></authors><commentList><comment ref="B2" authorId="0"><text><r><t>note for sheet %d</t></r></text></comment></commentList></comments>' % (k, k))
+            z.writestr('xl/drawings/vmlDrawing%d.vml' % k, VML % (k, 1024 * k + 1))
+many_comments('fx_many_comments.xlsx', 12)
+print('written', sorted(f for f in os.listdir('.') if f.endswith('.xlsx')))
